@@ -147,6 +147,8 @@ M('sum-drop-copy', ['C01'], (RT, "        if iter(x) is x:\n            x = list
                                  "        if iter(x) is x:\n            x = list(x)\n        if x == []:\n            return start\n\n        x[0] = x[0] + start"))
 M('lsb-use-before-await', ['C01'], (RT, "        r = self._random(Zp, 1 << (l + k - 1))\n        if self.options.no_prss:\n            r = (await r)[0]\n        r = r.value\n        c = await self.output(a + ((1<<l) + (r << 1) + b.value))\n        x = 1 - b",
                                         "        r = self._random(Zp, 1 << (l + k - 1))\n        r = r.value\n        c = await self.output(a + ((1<<l) + (r << 1) + b.value))\n        x = 1 - b"))
+M('revert-fix-np_unit_vector-inplace', ['C37'], (RT, "        a = a >> f  # NB: no in-place rshift!\n        R = self._random(type(a), 1<<self.options.sec_param)", "        a >>= f\n        R = self._random(type(a), 1<<self.options.sec_param)"))
+M('scalar_mul-inplace-shift', ['C37'], (RT, "            a = a >> f  # NB: no in-place rshift!\n        for i in range(n):\n            x[i] = x[i] * a", "            a >>= f\n        for i in range(n):\n            x[i] = x[i] * a"))
 M('revert-fix-min_max-key', ['C29'], (RT, "            x[i], x[-1-i] = self.if_swap(key(a) >= key(b), a, b)", "            x[i], x[-1-i] = self.if_swap(a >= b, a, b)"))
 M('sort-compare-without-key', ['C29'], (RT, "                        x[i], x[i + d] = self.if_swap(key(a) < key(b), b, a)", "                        x[i], x[i + d] = self.if_swap(a < b, b, a)"))
 
